@@ -949,12 +949,19 @@ func targetedFallbackHandlerCallsClient(c *core.Ctx, variant int) {
 func targetedBuffersNotShared(c *core.Ctx, rounds int) {
 	for k := 0; k < rounds; k++ {
 		c.Eval(1)
+		which := 0
 		mk := func(roles bool) (*rig, *tx) {
 			r, err := newRig(rigOpts{rto: time.Second, useRoles: roles})
 			if err != nil {
 				fatalHarness("newclient: " + err.Error())
 			}
-			t := r.newTx("Start", seqTID(int8(k%3)), 24+4*(k%7))
+			id := seqTID(int8(which)) // every client has its own id, size and content
+			id[5], id[6] = byte(k), byte(which)
+			t := r.newTx("Start", id, 24+4*(k%7)+8*which)
+			for j := 20; j < len(t.msg.Raw); j++ {
+				t.msg.Raw[j] ^= byte(0x31 * (which + 1))
+			}
+			which++
 			_ = r.start(t)
 
 			return r, t
